@@ -72,6 +72,7 @@ fn any_encoder() -> Encoder {
 //@ bound: all 17 configuration fields free over their whole machine range (usize, bool, f32 incl. NaN/inf/-0.0, Option<NonZeroUsize>), both enum variants; no loop bound needed beyond string handling of the (stubbed) messages
 //@ asserts: verify().is_ok() if and only if every field lies in its documented range (literal numbers of the property statement)
 //@ stubs: alloc::fmt::format -> empty string (message text is irrelevant)
+//@ oracle: c07_oracle_boundary_grid
 #[kani::proof]
 #[kani::unwind(10)]
 #[kani::stub(alloc::fmt::format, fmt_stub)]
@@ -93,6 +94,7 @@ fn c07_verify_iff_spec() {
 //@ bound: all 17 fields free
 //@ asserts: into_verified() succeeds iff spec holds, and the wrapped value is the unmodified configuration
 //@ stubs: alloc::fmt::format -> empty string
+//@ oracle: c07_oracle_boundary_grid
 #[kani::proof]
 #[kani::unwind(10)]
 #[kani::stub(alloc::fmt::format, fmt_stub)]
